@@ -27,9 +27,9 @@ def make_case(rng, kind=None, nd=None, npoints=None, positive=False):
     """kind: windsea | mixed | random | swell"""
     kind = str(kind or rng.choice(["windsea", "windsea", "mixed", "random"]))
     nd = int(nd or rng.choice([16, 24, 36]))
-    nf = int(rng.integers(20, 37))
+    nf = int(rng.integers(20, 41))
     npnt = int(npoints or rng.integers(1, 9))
-    f = np.linspace(rng.uniform(0.03, 0.05), rng.uniform(0.5, 0.7), nf)
+    f = np.linspace(rng.uniform(0.03, 0.05), rng.uniform(0.5, 1.0), nf)
     d = np.arange(nd) * 360.0 / nd
     E = np.zeros((npnt, nf, nd))
     u10 = np.empty(npnt)
@@ -48,6 +48,9 @@ def make_case(rng, kind=None, nd=None, npoints=None, positive=False):
             fp = float(np.clip(G / (2 * np.pi * u10[i]) * rng.uniform(0.9, 1.6), 0.08, 0.35))
             lp = G / (2 * np.pi * fp ** 2)
             hs = float(np.clip(lp * rng.uniform(0.02, 0.06), 0.2, 12.0))  # significant steepness 2..6 %
+            if rng.uniform() < 0.3:
+                # a sea raised by a stronger wind than the one now blowing: wind dropped to 50-80 %
+                u10[i] *= float(rng.uniform(0.5, 0.8))
             e = jonswap(f, fp, hs, gamma=float(rng.uniform(1.0, 5.0)))
             E[i] = e[:, None] * spreading(d, wdir[i] + rng.uniform(-30, 30), float(rng.uniform(2, 12)))[None, :]
             if kind == "mixed":
